@@ -191,6 +191,11 @@ class ContractMixin:
                                                           z3.Select(cur, x) == z3.Select(old, x))))
                 return k(mk_bool(z3.And(*terms)), s)
             return self.ev_list(e.args[1:], st, with_objs)
+        if name == "cast":
+            def with_vals(vs, s):
+                v, c = vs
+                return k(Val(("ref", c.name) + tuple(v.ty[2:]), v.t), s)
+            return self.ev_list(e.args, st, with_vals)
         if name == "fresh_obj":
             # allocated during this call: born after everything that existed at old()
             return self.ev(e.args[0], st, lambda v, s: k(mk_bool(birth(v.t) > s.old.bound), s))
@@ -554,7 +559,7 @@ class ContractMixin:
             r = Val(("ref", v.ty[1]) + tuple(ty[2:]), r.t)
         return r
 
-    def apply_contract(self, c, info, bound, st, k):
+    def apply_contract(self, c, info, bound, st, k, direct=False):
         """modular call: prove requires, havoc frame, assume ensures (one successor per declared outcome)"""
         self.used_contracts.add(c.fqn)
         fr = self.contract_frame(c, info, bound, st)
@@ -562,6 +567,10 @@ class ContractMixin:
         for i, r in enumerate(c.requires):
             goal = self.eval_clause(r, st, frame=fr)
             self.emit(st, "call_pre", "call[%s].requires[%d]" % (info.qualname, i), r, goal)
+        if direct:
+            for i, r in enumerate(c.requires_direct):
+                goal = self.eval_clause(r, st, frame=fr)
+                self.emit(st, "call_pre", "call[%s].requires_direct[%d]" % (info.qualname, i), r, goal)
         suspends = c.suspends is not None and (c.suspends[1] is None or c.suspends[1] > 0)
         if not c.pure and not c.no_invariants:
             # a callee that may suspend makes this call a yield point: everything must hold, not just its scope
@@ -814,6 +823,9 @@ class ContractMixin:
         if info.node.name == "__init__" and pnames and isinstance(self.entry_params[pnames[0]], Val):
             self.init_self = self.entry_params[pnames[0]]
             st.constructing = st.constructing | {self.init_self.t.get_id()}
+            # the object under construction is fresh: younger than everything the heap refers to
+            st.clock = z3.IntVal(1)
+            st.assume(birth(self.init_self.t) == 1)
             # the allocation site has just set the ghost defaults
             for n in self.mro_names(self.init_self.ty[1]):
                 m = self.reg.models.get(n)
@@ -831,7 +843,7 @@ class ContractMixin:
         for t in c.assume_entry:
             st.assume(self.eval_clause(t, st))
             self.assumptions_used.add("%s: entry assumption %s" % (fqn, t))
-        for r in c.requires:
+        for r in c.requires + c.requires_direct:
             st.assume(self.eval_clause(r, st))
         n_obl_before = len(self.obligations)
         # vacuity guard: the precondition must be satisfiable
@@ -873,8 +885,10 @@ class ContractMixin:
             self.assume_elem_types(st, lv)
             return lv
         v = Val(ty, z3.Const("p_" + n, sort_of(ty)))
+        is_init_self = (self.cur_func.node.name == "__init__" and n == (self.cur_func.node.args.args[0].arg if self.cur_func.node.args.args else None))
         for rt in self.ref_components(v.t, v.t.sort()):
-            st.assume(birth(rt) <= 0)
+            if not is_init_self:
+                st.assume(birth(rt) <= 0)
         if ty[0] == "ref":
             if len(ty) == 2:
                 st.assume(v.t != NULL)
@@ -1065,17 +1079,31 @@ class ContractMixin:
                 continue
             if hk in (self.CORO_STATE_KEY, self.ABSTRACT_TRUTH):
                 continue
+            if hk.endswith("#n") and (hk[:-2] + "#a") in st.heap:
+                continue      # checked together with the content array
             objs = allowed.get(hk)
             x = z3.Const("x!fr", RefS)
-            if objs is None:
-                # objects created by this call are outside the frame
-                goal = z3.ForAll([x], z3.Implies(birth(x) <= 0, z3.Select(arr, x) == z3.Select(old, x)))
-                self.emit(st, "frame", "frame[%s](%s)" % (hk, tag), "modifies does not list " + hk, goal)
-            elif None in objs:
+            if objs is not None and None in objs:
                 continue
+            guards = [x != NULL, birth(x) <= 0] + ([x != o for o in objs] if objs else [])
+            if hk.endswith("#a"):
+                # a list field: equal as lists (length and the elements below the length)
+                nk = hk[:-2] + "#n"
+                narr = st.heap.get(nk)
+                nold = st.old.heap.get(nk)
+                if narr is None:
+                    narr = st.hs.initial(st.epoch, nk, z3.ArraySort(RefS, z3.IntSort()))
+                if nold is None:
+                    nold = st.hs.initial(st.old.epoch, nk, z3.ArraySort(RefS, z3.IntSort()))
+                i = z3.Const("i!fr", z3.IntSort())
+                same = z3.And(z3.Select(narr, x) == z3.Select(nold, x),
+                              z3.ForAll([i], z3.Implies(z3.And(0 <= i, i < z3.Select(nold, x)),
+                                                       z3.Select(z3.Select(arr, x), i) == z3.Select(z3.Select(old, x), i))))
             else:
-                goal = z3.ForAll([x], z3.Implies(z3.And(birth(x) <= 0, *[x != o for o in objs]), z3.Select(arr, x) == z3.Select(old, x)))
-                self.emit(st, "frame", "frame[%s](%s)" % (hk, tag), "only declared objects change in " + hk, goal)
+                same = z3.Select(arr, x) == z3.Select(old, x)
+            goal = z3.ForAll([x], z3.Implies(z3.And(*guards), same))
+            what = "modifies does not list " + hk if objs is None else "only declared objects change in " + hk
+            self.emit(st, "frame", "frame[%s](%s)" % (hk, tag), what, goal)
 
     def parse_modifies_old(self, c, st, fr):
         s2 = st.copy()
